@@ -20,7 +20,7 @@ from ..kernel import (Violation, call, close, identical, is_exc, short,
                       snapshot, snapshot_equal)
 
 PROP = 'C19'
-MUTATORS = {'mutate_user', 'eval', 'par_eval'}
+MUTATORS = {'mutate_user', 'eval', 'par_eval', 'fix_ll'}
 OBSERVERS = {'eval', 'par_eval'}
 BUDGET = {'quick': {'runs': 1200, 'wall': 75},
           'thorough': {'runs': 60000, 'wall': 1500}}
@@ -282,14 +282,34 @@ def run(scenario, world):
     points = scenario['points']
     extra = {'assign': [], 'traces': 0}
 
+    netfix = {}         # handle -> {original index: value} (fix_ll ops)
+    for r in recipes:
+        if r['kind'] == 'loglik' and r.get('fix'):
+            netfix[r['h']] = {int(i): v for i, v in r['fix']}
+
+    def cur_recipes():
+        out = []
+        for r in recipes:
+            if r['h'] in netfix:
+                r = dict(r, fix=[[i, v] for i, v in sorted(
+                    netfix[r['h']].items())])
+            out.append(r)
+        return out
+
+    def free(h, vec):
+        fx = netfix.get(h)
+        if vec is None or not fx:
+            return vec
+        return [v for i, v in enumerate(vec) if i not in fx]
+
     def reference(h, q, pidx, variant_free_x, aux):
-        key = (h, q, pidx)
+        key = (h, q, pidx, repr(sorted(netfix.get(h, {}).items())))
         if key not in refs:
             was_f, was_m = world.faults_enabled, world.muted
             world.faults_enabled = False
             world.muted += 1
             try:
-                t = Table(recipes)
+                t = Table(cur_recipes())
                 obj = call(t.get, h)
                 refs[key] = obj if is_exc(obj) else call(
                     query, obj, kinds[h], q,
@@ -313,7 +333,7 @@ def run(scenario, world):
                 continue
             pidx = op['point']
             vec = points.get(h)
-            vec = None if vec is None else vec[pidx % len(vec)]
+            vec = None if vec is None else free(h, vec[pidx % len(vec)])
             aux = aux_of(scenario, pidx)
             if q in ('regimen', 'init'):
                 x = None
@@ -366,6 +386,42 @@ def run(scenario, world):
                 world.log('res', q, _loggable(res))
             triples.append((prev, q, kind))
             prev = q
+        elif o == 'fix_ll':
+            h = op['on']
+            if h not in kinds or kinds[h] != 'loglik' or h in dirty:
+                continue
+            if any(r.get('ll') == h or h in r.get('lls', [])
+                   for r in recipes):
+                continue        # a posterior caches its dimension
+            t0 = Table([dict(r, fix=None) if r['h'] == h else r
+                        for r in recipes])
+            was = world.muted
+            world.muted += 1
+            try:
+                names0 = t0.get(h).get_parameter_names()
+            finally:
+                world.muted = was
+            fx = netfix.setdefault(h, {})
+            d = {}
+            for i, v in op['set']:
+                i = i % len(names0)
+                d[names0[i]] = v
+                if v is None:
+                    fx.pop(i, None)
+                else:
+                    fx[i] = v
+            if len(fx) >= len(names0):
+                # keep at least one free parameter
+                k0 = sorted(fx)[0]
+                fx.pop(k0)
+                d[names0[k0]] = None
+            r = call(main.get(h).fix_parameters, d)
+            if is_exc(r):
+                raise Violation('op.fix', 'raises', '%r\n%s' % (r, r.tb),
+                                step)
+            world.probe('likelihood_fixed_between_evaluations')
+            triples.append((prev, 'fix_ll', 'loglik'))
+            prev = 'fix_ll'
         elif o == 'mutate_user':
             h = op['on']
             if h not in kinds:
@@ -622,12 +678,18 @@ def generate(rng, index, tier):
             recipes.append({'h': 're', 'kind': 'rederror', 'error': 'e0',
                             'fix': [[rng.randint(0, 1), 0.4]]})
     # evaluation points per handle
-    t = Table(recipes)
+    t = Table([dict(r, fix=None) if r['kind'] == 'loglik' else r
+               for r in recipes])
     points = {}
     for r in recipes:
         obj = t.get(r['h'])
         n = obj.n_parameters()
         points[r['h']] = [_vals(rng, n) for _ in range(3)]
+    if fixed_ll and 'lp' in [r['h'] for r in recipes]:
+        # the posterior is built on the fixed likelihood
+        t2 = Table(recipes)
+        points['lp'] = [_vals(rng, t2.get('lp').n_parameters())
+                        for _ in range(3)]
     aux = []
     nd_max = 16
     for _ in range(3):
@@ -656,8 +718,16 @@ def generate(rng, index, tier):
     for op in mech.get('config', []):
         if op['op'] == 'set_administration':
             dos = op
+    fix_on = ('ll' in handles and 'lp' not in handles
+              and rng.random() < 0.7)
     for _ in range(n_ops):
         r = rng.random()
+        if r > 0.85 and fix_on:
+            ops.append({'op': 'fix_ll', 'on': 'll', 'set': [
+                [rng.randint(0, 30), None if rng.random() < 0.35
+                 else round(rng.uniform(0.3, 1.5), 3)]
+                for _ in range(rng.randint(1, 2))]})
+            continue
         if r < 0.06 and mut_on:
             h = rng.choice(['m'] + errs)
             op = {'op': 'mutate_user', 'on': h}
